@@ -46,7 +46,7 @@ func c08(tier string) int {
 	// boundaries (4 KiB buffers, the bastion's 16 KiB cap, 64 KiB, the note
 	// format's 1 000 000) fall between what is submitted and what is stored
 	// once cosigned. junkJ: the same for the 100-signature-line limit.
-	for _, shape := range []string{"plain", "ext", "otherlog", "stale-own-valid", "junk1", "junk96", "junk97", "junk98", "junk99", "junk100", "pad4096", "pad16384", "pad65536", "pad999000", "pad1000000"} {
+	for _, shape := range []string{"plain", "ext", "otherlog", "stale-own-valid", "junk1", "junk96", "junk97", "junk98", "junk99", "junk100", "pad4096", "pad16384", "pad65536", "pad999000", "pad1000000", "namesake-future", "namesake-past", "namesake-legacy"} {
 		for _, sz := range sizes {
 			shape, sz := shape, sz
 			if strings.HasPrefix(shape, "pad") && sz != 1 && sz != 4 {
@@ -241,7 +241,7 @@ func c08(tier string) int {
 	run.Set("traces_validated_against_impl", trans)
 	run.Set("evaluations", trans)
 	run.Set("exhaustive", true)
-	run.Set("rule", fmt.Sprintf("all prior histories of <= %d events (plus one more event over a reduced set: shapes plain/ext/junk97/junk98/stale-own at sizes 0,1,4 and refused stale/fork-growth/garbage-sig, probed to s, s+1, s+2 and N) over {honest accept in shapes plain/ext/otherlog/stale-own/junk1,96,97,98,99,100 at sizes %v and notes of exactly 4096, 16384, 65536, 999000 and 1000000 bytes at sizes 1 and 4; refused: other key, garbage signature, truncated, stale, old too large, fork at same size, fork growth with adversarial proof, bad proof}, executed on the real witness; from every reached state an honest probe (log's own signature only, old = current size, ref6962 proof, empty when sizes are equal or old size is 0) to EVERY size up to %d on a fresh replay, both stores; oracle: accepted. distinct_nontrivial = distinct accepted (store, history, target size)", depth, sizes, n))
+	run.Set("rule", fmt.Sprintf("all prior histories of <= %d events (plus one more event over a reduced set: shapes plain/ext/junk97/junk98/stale-own at sizes 0,1,4 and refused stale/fork-growth/garbage-sig, probed to s, s+1, s+2 and N) over {honest accept in shapes plain/ext/otherlog/stale-own/junk1,96,97,98,99,100 at sizes %v with an unverifiable line under the witness key name (future / ancient timestamp, legacy-shaped) and notes of exactly 4096, 16384, 65536, 999000 and 1000000 bytes at sizes 1 and 4; refused: other key, garbage signature, truncated, stale, old too large, fork at same size, fork growth with adversarial proof, bad proof}, executed on the real witness; from every reached state an honest probe (log's own signature only, old = current size, ref6962 proof, empty when sizes are equal or old size is 0) to EVERY size up to %d on a fresh replay, both stores; oracle: accepted. distinct_nontrivial = distinct accepted (store, history, target size)", depth, sizes, n))
 	run.Assumption("the honest log is the main branch of the universe; the probe carries only the log's signature line")
 	return run.Finish()
 }
